@@ -60,6 +60,7 @@ M = [
  ('value of another type than the property declares is refused', 'C17', "Properties.Set(level declared 'i', variant STRING 'hello') succeeds, stores the string and emits PropertiesChanged; afterwards Get(level) is answered with a ValueError error reply and GetAll of the whole interface fails - for every client"),
  ('big-endian byte order carries its body in that order too', 'C03', "a message class with the documented attribute endian = ord('B') and a body of signature 'us': header and header fields are written big-endian, the body little-endian - the constructed bytes are not a well-formed message ([1, 'hello'] parses back as [16777216, ...])"),
  ("calls issued by a remote object's disconnect callback", 'C09', "a live proxy's notifyOnDisconnect callback issues a call (a retry with timeout=5) while the loss is handled: the proxy callbacks run after the table of outstanding calls was flushed, so that call is never failed with the loss reason - its timer fires TimeOut 5 s after the loss, without a timeout it hangs for ever"),
+ ('keeps the header flag bits this implementation does not interpret', 'C14', "a message with header flags 0x4 .. 0x7 (0x4 = ALLOW_INTERACTIVE_AUTHORIZATION) sent through the built-in bus arrives with flags 0x0 .. 0x3: not unchanged except the sender"),
  ('RequestName queues a requester', 'C13', 'request without the replace flag refused instead of queued; a waiting client requesting again queued twice'),
  ('waiting for a name leaves the queue', 'C13', 'ReleaseName by a queued client answered NOT_OWNER and left it queued; a queued client that disconnected later became a dead owner'),
 ]
